@@ -5,6 +5,7 @@ mod data;
 mod names;
 mod coll;
 mod conn;
+mod client;
 mod resp;
 
 fn unhex(s: &str) -> Vec<u8> {
@@ -46,6 +47,7 @@ fn main() {
         "typed" => data::typed(&args[1..]),
         "tag" => names::tag(&args[1..]),
         "recv" => conn::recv(&args[1..]),
+        "client" => client::client(&args[1..]),
         "resp" => resp::resp(&args[1..]),
         "typedcount" => resp::typedcount(&args[1..]),
         "frame" => coll::frame(&args[1..]),
